@@ -42,13 +42,13 @@ def run(ctx):
     ctx.floor("C04.F", 5)
 
 
-def row_rule(ctx, fv, who, root=None):
+def row_rule(ctx, fv, who, root=None, rule="C04.F"):
     """row = values.join(delim) + newline"""
     rows = [(n, ft) for n, ft in formats_in(fv, root)
             if len(ft[1]) == 2 and ft[1][0][0] == "arg" and ft[1][1] == ("lit", "\n")]
     good = [1 for n, ft in rows if ft[2][0][0] == "call" and ft[2][0][1].endswith("::join")
             and ft[2][0][3] == SF("delim")]
-    ctx.check("C04.F", "%s:row" % who, len(rows) >= 1 and len(good) == len(rows),
+    ctx.check(rule, "%s:row" % who, len(rows) >= 1 and len(good) == len(rows),
               "row = values.join(self.delim) + \"\\n\"",
               "row text is not `values.join(&self.delim)` followed by a newline (found %s)"
               % [fmt_template(ft) + " <- " + show(ft[2][0]) for n, ft in rows],
